@@ -38,6 +38,7 @@ PROPS["C03"] = {
                 "TestC03ImplModels":    _c03(800, 12000, 1, 8),
                 "TestC03ImplScalarMul": _c03(600, 10000, 2, 16),
                 "TestC03ImplMSMSmall":  _c03(400, 6000, 4, 16),
+                "TestC03ParImplScalarMul": _c03(60, 1500, 1, 8), "TestC03ParImplMSMSmall": _c03(40, 1000, 1, 8),
                 "TestC03ImplMSMLarge":  _c03(40, 500, 2, 16),
                 "TestC03ImplRistretto": _c03(400, 6000, 1, 8),
             },
